@@ -119,6 +119,11 @@ def c08(tier, repo=None):
     two_op = [s for s in shapes if s["nops"] == 2 and len(s["nodes"]) <= P["mc_extra_nodes"]]
     rnd.shuffle(two_op)
     mc_shapes = one_op + two_op[:P["mc_extra"]]
+    # array-only copy-then-merge trees (depth 3, no writers: tiny state spaces) are model checked too
+    for name, tree in streams.array_alias_shapes():
+        if name in ("merge3-copy2", "spare2-copy2-plain", "merge3-copy3-plain"):
+            nodes = [dict(n, items=[], cap=0) for n in tree]
+            mc_shapes.append({"id": "aa-" + name, "nodes": nodes, "desc": streams.shape_desc(nodes), "nops": 4})
 
     # model check in the background while the real runs are made
     ex = concurrent.futures.ThreadPoolExecutor(max_workers=2)
@@ -130,6 +135,7 @@ def c08(tier, repo=None):
     log("  %d sequential histories sampled by TLC (StreamsSeq -simulate, %.0fs)" % (len(seqc), srun.wall_s))
     concc = streams.conc_cases(shapes, rnd, P["conc"])
     directed = streams.merge_close_cases(15 if tier == "quick" else 40)
+    directed += streams.array_alias_cases(rnd, 2 if tier == "quick" else 6)
     directed += streams.wide_merge_cases(rnd, 5 if tier == "quick" else 15) + streams.precopy_cases(rnd, 3 if tier == "quick" else 8)
     cases = seqc + directed + concc
     case_by_id = {c["id"]: c for c in cases}
